@@ -76,7 +76,7 @@ func (l *link) exec(kind, key string, payload []byte, exp uint64, apply func(rec
 	s.mu.Lock()
 	rec := &OpRec{ID: s.opID, Obj: o.idx, Inst: in.idx, Actor: in.spec.ID, Kind: kind, Key: key, Exp: exp,
 		Payload: append([]byte(nil), payload...), NthKind: in.opCount[kind], IssueT: s.now(), IssueSeq: s.nextSeq(),
-		ApplySeq: -1, ReturnSeq: -1, Gid: gid(), InStopCtxDelete: kind == OpDelete && o.delDepth > 0}
+		ApplySeq: -1, ReturnSeq: -1, Gid: gid(), InStopCtxDelete: (kind == OpDelete || kind == OpGet) && o.delDepth > 0}
 	s.opID++
 	in.opCount[kind]++
 	rule := in.rule(kind, rec.NthKind)
